@@ -201,6 +201,19 @@ def s_static(draw, tier):
 
 # ------------------------------------------------------------------ (d) iteration over adversarial streams
 def o_iter(case):
+    import logging
+
+    lg = logging.getLogger("pyrtcm")
+    old_level = lg.level
+    if case.get("debug"):
+        lg.setLevel(logging.DEBUG)
+    try:
+        return _o_iter(case)
+    finally:
+        lg.setLevel(old_level)
+
+
+def _o_iter(case):
     from pyrtcm import RTCMReader
 
     items = case["items"]
@@ -252,6 +265,7 @@ def s_iter(draw, tier):
         "validate": draw(st.sampled_from([1, 1, 0])),
         "parsed": draw(st.sampled_from([True, True, False])),
         "handler": draw(st.booleans()),
+        "debug": draw(st.integers(0, 3)) == 0,
     }
 
 
